@@ -13,14 +13,7 @@ def parseTreeRec (ws : List String) : Option (TreeRec × List String) :=
   match ws with
   | r :: w :: rest =>
     match parseRooted r, parseORat w, parseTree rest with
-    | some r, some w, some (t, rest') =>
-      let es := C04.edgeRecs r t
-      let t2 := C01.encodeTree r true true t
-      -- the edge of a bipartition is looked up through `bipartition_edge_map` (bipartitions hash by split mask):
-      -- two edges carrying the same split both resolve to the later one
-      let em := C04.edgeMap es
-      some ({ rooted := r == some true, weight := w, splits := es.map (·.split),
-              lens := es.map (fun e => ((C04.lookup em e.split).bind (·.len)).getD 0), leafset := t2.mask }, rest')
+    | some r, some w, some (t, rest') => some (treeRecOf r w t, rest')
     | _, _, _ => none
   | _ => none
 
@@ -66,10 +59,9 @@ def handle (ws : List String) : String :=
               ++ " | argsum " ++ optNat (argmaxFirst sums)
               ++ " | argprod " ++ optNat (argmaxFirst prods)
               ++ " | lens " ++ " ".intercalate (lens.map (fun p =>
-                  let l := p.2
-                  let s := sortAsc l
-                  s!"{p.1}:{l.length},{rr (mean l)},{rr (median l)},{rr (s.headD 0)},{rr (s.getLastD 0)}," ++
-                    (if l.length ≥ 2 then rr (sampleVar l) else "inf")))
+                  let st := stats p.2
+                  s!"{p.1}:{st.n},{rr st.mean},{rr st.median},{rr st.lo},{rr st.hi}," ++
+                    (match st.var with | some v => rr v | none => "inf")))
           | _ => "bad-trees"
         | none => "bad-op"
       | _, _ => "bad-op"
@@ -81,16 +73,25 @@ def handle (ws : List String) : String :=
       | some (ts, r :: rest2) =>
         match parseRooted r, parseTree rest2 with
         | some r, some (t, []) =>
-          let sd := countAll (useW == "1") ts
-          let t2 := C01.encodeTree r true true t
-          let L := t2.mask
-          let weakOf := fun (nd : T) => decide (freq sd (C01.splitOf (r == some true) L nd.mask) < mf)
-          let weakIds := (t2.nodes.filter weakOf).map T.id
-          let weak := fun i => weakIds.contains i
-          if anyWeakLeaf weak t2 then "E" else (collapseWeak weak t2).render
+          match collapseBelow (countAll (useW == "1") ts) mf r t with
+          | none => "E"
+          | some t' => t'.render
         | _, _ => "bad-target"
       | _ => "bad-trees"
     | _, _ => "bad-op"
+  | "annot" :: useW :: pct :: n :: rest =>
+    -- supports written on the nodes of a target tree (post-order of its default encoding): `split:support`
+    match n.toNat? with
+    | some n =>
+      match parseTreeRecs n rest with
+      | some (ts, r :: rest2) =>
+        match parseRooted r, parseTree rest2 with
+        | some r, some (t, []) =>
+          let sd := countAll (useW == "1") ts
+          " ".intercalate ((C04.edgeRecs r t).map (fun e => s!"{e.split}:{rr (supportOf sd (pct == "1") e.split)}"))
+        | _, _ => "bad-target"
+      | _ => "bad-trees"
+    | none => "bad-op"
   | _ => "bad-op"
 
 def main : IO Unit := do driverLoop (← IO.getStdin) handle
